@@ -47,7 +47,7 @@ ALLOWED = [
 def budget(tier):
     if tier == "quick":
         return {"examples": 640, "shards": 16, "time_s": 90}
-    return {"examples": 12800, "shards": 16, "time_s": 900}
+    return {"examples": 38400, "shards": 16, "time_s": 1500}
 
 
 @st.composite
